@@ -824,19 +824,20 @@ Definition stor (e : hentry) : Prop :=
 (* its value has no line structure left (always the case for messages that went through the unfolding pass) *)
 Definition single_line (v : bytes) : Prop := forallb (fun c => negb (c =? 13) && negb (c =? 10)) v = true.
 
-Lemma canon_stor name : name <> [] -> forallb cs_TCHAR name = true -> lenN name <= 65534 ->
-  let nm := snd (canon_name name) in
-  nm <> [] /\ forallb cs_TCHAR nm = true /\ lenN nm <= 65534 /\ canon_name nm = (fst (canon_name name), nm).
+Lemma canon_stor name id nm : canon_name name = (id, nm) ->
+  name <> [] -> forallb cs_TCHAR name = true -> lenN name <= 65534 ->
+  nm <> [] /\ forallb cs_TCHAR nm = true /\ lenN nm <= 65534 /\ canon_name nm = (id, nm).
 Proof.
-  intros Hne Ht Hl. unfold canon_name at 1 2 3 5. pose proof (tbl_find_spec hdr_table name) as H.
-  destruct (tbl_find hdr_table name) as [[id nm]|] eqn:E; cbn [fst snd].
-  - destruct H as (_ & fl & Hin). pose proof table_ok as T. rewrite forallb_forall in T. specialize (T _ Hin).
-    cbn [tbl_entry_ok] in T. apply andb_prop in T as [T T4]. apply andb_prop in T as [T T3].
+  intros Hc Hne Ht Hl. unfold canon_name in Hc. pose proof (tbl_find_spec hdr_table name) as H.
+  destruct (tbl_find hdr_table name) as [[id' nm']|] eqn:E.
+  - injection Hc as <- <-. destruct H as (_ & fl & Hin). pose proof table_ok as T. rewrite forallb_forall in T.
+    specialize (T _ Hin). cbn [tbl_entry_ok] in T. apply andb_prop in T as [T T4]. apply andb_prop in T as [T T3].
     apply andb_prop in T as [T1 T2]. unfold canon_name.
-    destruct (tbl_find hdr_table nm) as [[i n]|]; [|discriminate]. apply andb_prop in T4 as [Ta Tb].
+    destruct (tbl_find hdr_table nm') as [[i n]|]; [|discriminate]. apply andb_prop in T4 as [Ta Tb].
     apply list_eqb_true' in Tb. apply N.eqb_eq in Ta. subst.
-    repeat split; [destruct nm; [discriminate|discriminate]|exact T1|lia].
-  - repeat split; [exact Hne|exact Ht|exact Hl|]. unfold canon_name. now rewrite E.
+    split; [destruct nm'; discriminate|]. split; [exact T1|]. split; [lia|reflexivity].
+  - injection Hc as <- <-. split; [exact Hne|]. split; [exact Ht|]. split; [exact Hl|].
+    unfold canon_name. now rewrite E.
 Qed.
 
 Lemma lenN_rtrim l : lenN (rtrim l) <= lenN l.
@@ -866,7 +867,8 @@ Proof.
   assert (Hl : lenN nm0 <= 65534).
   { subst nm0. destruct req; [lia|]. rewrite trim_right_rtrim. pose proof (lenN_rtrim rn). lia. }
   assert (Hne : nm0 <> []) by (intros ->; cbn [lenN] in E0; lia).
-  destruct (canon_stor nm0 Hne Et Hl) as (A & B & C & D).
+  destruct (canon_name nm0) as [id nm] eqn:Ec. cbn [fst snd].
+  destruct (canon_stor nm0 id nm Ec Hne Et Hl) as (A & B & C & D).
   unfold stor. cbn [he_id he_name he_value]. repeat split; try assumption; [lia| |].
   - unfold ref_trim. rewrite trim_right_rtrim, trim_left_ltrim. apply ltrim_rtrim_ltrim.
   - unfold ref_trim. rewrite trim_right_rtrim, trim_left_ltrim. apply rtrim_idem.
@@ -1312,7 +1314,8 @@ Proof.
   destruct (nonspace_trimmed _ (digits_nonspace _ Hd)) as (A & B & C).
   assert (Hname : name_content_length <> [] /\ forallb cs_TCHAR name_content_length = true /\ lenN name_content_length <= 65534)
     by (vm_compute; repeat split; discriminate).
-  destruct Hname as (N1 & N2 & N3). destruct (canon_stor _ N1 N2 N3) as (S1 & S2 & S3 & S4).
+  destruct Hname as (N1 & N2 & N3).
+  destruct (canon_stor name_content_length ID_CL (snd (canon_name name_content_length)) ltac:(vm_compute; reflexivity) N1 N2 N3) as (S1 & S2 & S3 & S4).
   split.
   - unfold stor, h_cl_entry. cbn [he_id he_name he_value]. unfold int64_to_a.
     repeat split; try assumption. pose proof (lenN_dec_digits 20 (Z.to_N v)). lia.
